@@ -31,3 +31,9 @@ func VerifDecodeAuth(authStr string) (string, string, error) { return config.Ver
 
 // VerifToHostname is config.ToHostname.
 func VerifToHostname(addr string) string { return config.ToHostname(addr) }
+
+// VerifSetCredentialsStore is Config.SetCredentialsStore on the store's config
+// (what DynamicStore.Put does once a native store was detected).
+func VerifSetCredentialsStore(fs *FileStore, credsStore string) error {
+	return fs.config.SetCredentialsStore(credsStore)
+}
